@@ -1,6 +1,6 @@
 """What MANIFEST.json claims.  Edited by hand; check/mkmanifest.py turns it into MANIFEST.json."""
 
-HOOK_COMMITS = ["085154a", "c96bfcc", "0994635"]
+HOOK_COMMITS = ["085154a", "c96bfcc", "0994635", "c804b32"]
 
 CLAIMS = [
     {
